@@ -3,6 +3,7 @@
 package provider_test
 
 import (
+	"crypto/sha256"
 	"fmt"
 	"sort"
 	"strings"
@@ -10,7 +11,9 @@ import (
 	"testing/synctest"
 	"time"
 
+	"github.com/ipfs/go-libdht/kad/key"
 	"github.com/ipfs/go-libdht/kad/key/bit256"
+	mh "github.com/multiformats/go-multihash"
 
 	vu "github.com/libp2p/go-libp2p-kad-dht/internal/verifutil"
 	"github.com/libp2p/go-libp2p-kad-dht/provider"
@@ -34,6 +37,23 @@ func u17Order(bits string) bit256.Key {
 		}
 	}
 	return bit256.NewKeyFromArray(b)
+}
+
+var u17KeyCache = map[string]mh.Multihash{}
+
+// u17Key: a multihash whose Kademlia identifier starts with the given 8 bits (deterministic)
+func u17Key(bits string) mh.Multihash {
+	if h, ok := u17KeyCache[bits]; ok {
+		return h
+	}
+	for n := 0; ; n++ {
+		h, _ := mh.Sum([]byte(fmt.Sprintf("verif-u17-%d", n)), mh.SHA2_256, -1)
+		id := key.BitString(bit256.NewKeyFromArray(sha256.Sum256(h)))
+		if id[:len(bits)] == bits {
+			u17KeyCache[bits] = h
+			return h
+		}
+	}
 }
 
 func runU17(c *vu.Case) {
@@ -98,6 +118,23 @@ func runU17(c *vu.Case) {
 		case "sleep":
 			time.Sleep(secs(e, "s"))
 			out = "ok"
+		case "group":
+			p.VerifSetOffset(secs(e, "cur"))
+			p.VerifSetAvgPrefixLen(atoiSP(e["avg"], 0), e["valid"] == "1")
+			var ks []mh.Multihash
+			for _, t := range strings.Split(e["keys"], ",") {
+				ks = append(ks, u17Key(t))
+			}
+			g := p.VerifGroup(ks, e["sched"] == "1")
+			var gs []string
+			for pf, n := range g {
+				if pf == "" {
+					pf = "e"
+				}
+				gs = append(gs, fmt.Sprintf("%s:%d", pf, n))
+			}
+			sort.Strings(gs)
+			out = "groups=[" + strings.Join(gs, ",") + "] " + entries()
 		case "hist":
 			p.VerifHistory(u17Bits(e["p"]))
 			out = "ok"
@@ -147,19 +184,32 @@ func TestVerifC17u(t *testing.T) {
 			hist := false
 			for i := 0; i < steps; i++ {
 				switch x := r.Intn(20); {
-				case x < 8:
+				case x < 6:
 					c.In = append(c.In, fmt.Sprintf("sched p=%s just=%d cur=%d", short(), r.Intn(2), r.Intn(I)))
-				case x < 10:
+				case x < 8:
 					c.In = append(c.In, fmt.Sprintf("unsched p=%s cur=%d", short(), r.Intn(I)))
-				case x < 12:
+				case x < 10:
 					maxLen := 20
 					if I == 512 {
 						maxLen = 28
 					}
 					c.In = append(c.In, fmt.Sprintf("slot p=%s", bits(r.Intn(maxLen+1))))
-				case x < 13:
+				case x < 11:
 					c.In = append(c.In, fmt.Sprintf("tb a=%d b=%d", r.Intn(I), r.Intn(I)))
-				case x < 16:
+				case x < 14:
+					var ks []string
+					for j, n := 0, r.Range(1, 6); j < n; j++ {
+						ks = append(ks, bits(8))
+					}
+					if r.Chance(1, 3) {
+						ks = append(ks, ks[0])
+					}
+					sc := 1
+					if r.Chance(1, 4) {
+						sc = 0
+					}
+					c.In = append(c.In, fmt.Sprintf("group avg=%d valid=%d sched=%d cur=%d keys=%s", r.Intn(6), r.Intn(2), sc, r.Intn(I), strings.Join(ks, ",")))
+				case x < 17:
 					c.In = append(c.In, "hist p="+short())
 					hist = true
 				case x < 18:
